@@ -159,8 +159,11 @@ func LibEncode(v *Value) (out []byte, obj any, err error, panicked any) {
 	err, panicked, _ = safely(func() error { return EncodeAny(obj, &buf) })
 	out = append([]byte{}, buf.Bytes()...)
 	scribble(&buf)
+	if Col.Property == "C19" || Col.Property == "C20" {
+		return out, obj, err, panicked // called from parallel goroutines there: no shared harness state
+	}
 	encodeNote = ""
-	if panicked != nil || err != nil || len(out) > 256<<10 || Col.Property == "C19" || Col.Property == "C20" {
+	if panicked != nil || err != nil || len(out) > 256<<10 {
 		return out, obj, err, panicked
 	}
 	if recycledBuf.Cap() == 0 || recycledBuf.Cap() > 4<<20 {
